@@ -57,6 +57,12 @@ def install(I: Interp):
         return f
     for fn in ("sum", "max", "min", "mean", "nanmax", "nanmin"):
         E[f"numpy.{fn}"] = np_reduce(fn)
+    def array_equal(I, a, k, n):
+        e = I.py_eq(a[0], a[1])
+        if e is None:
+            return UnknownBool(f"array_equal({I.describe(a[0])},{I.describe(a[1])})")
+        return e
+    E["numpy.array_equal"] = array_equal
     E["numpy.isnan"] = lambda I, a, k, n: UnknownBool(f"isnan({I.describe(a[0])})")
 
     # ---- pandas Series / ndarray (Arr) ----------------------------------------
@@ -68,7 +74,8 @@ def install(I: Interp):
 
     def arr_between(I, v, a, k, n):
         lo, hi = a[0], a[1]
-        return Mask(f"between({I.describe(lo)},{I.describe(hi)})on({v.num.canon()})")
+        return Mask(f"between({I.describe(lo)},{I.describe(hi)})on({v.num.canon()})",
+                    meta=("between", I.describe(lo), I.describe(hi), v.num))
     M[("Arr", "between")] = arr_between
     M[("Arr", "max")] = lambda I, v, a, k, n: Num.atom(f"max({I.describe(v)})")
     M[("Arr", "min")] = lambda I, v, a, k, n: Num.atom(f"min({I.describe(v)})")
@@ -79,7 +86,7 @@ def install(I: Interp):
     def arr_getitem(I, v, a, k, n):
         idx = a[0]
         if isinstance(idx, Mask):
-            return Arr(v.num, v.sel + (idx.desc,), v.kind, v.index)
+            return Arr(v.num, v.sel + (idx.tag,), v.kind, v.index)
         if isinstance(idx, Num):
             return Num.atom(f"{v.num.canon()}[{idx.canon()}]{'@' + '/'.join(v.sel) if v.sel else ''}")
         if isinstance(idx, slice) or (isinstance(idx, tuple) and idx and idx[0] == "slice"):
@@ -91,13 +98,13 @@ def install(I: Interp):
         arr = v.attrs["arr"]
         idx = a[0]
         if isinstance(idx, Mask):
-            return Arr(arr.num, arr.sel + (idx.desc,), arr.kind, arr.index)
+            return Arr(arr.num, arr.sel + (idx.tag,), arr.kind, arr.index)
         I.err(n, f"Series.loc[{idx!r}]")
     M[("ArrLoc", "__getitem__")] = arrloc_getitem
 
     # ---- pandas DataFrame (Frame) -------------------------------------------------
     A[("Frame", "loc")] = lambda I, v, n: Obj(kind="FrameLoc", attrs={"frame": v})
-    A[("Frame", "empty")] = lambda I, v, n: UnknownBool(f"empty({v.label}@{'/'.join(v.sel)})")
+    A[("Frame", "empty")] = lambda I, v, n: UnknownBool(f"empty({v.label}@{'/'.join(map(str, v.sel))})")
     A[("Frame", "columns")] = lambda I, v, n: list(v.cols.keys())
     A[("Frame", "index")] = lambda I, v, n: Opaque("index")
 
